@@ -38,10 +38,10 @@ L_TEAMS, L_TEAM, L_PLAYER, L_RANKS, L_SCORES = "IN.teams", "IN.team", "IN.player
 class Box:
     """Numeric seeding of inputs. Any of the facts may be disabled (None)."""
 
-    def __init__(self, *, ranges: bool = False, degrees: bool = False, teams=(2, 8), players=(1, 16),
+    def __init__(self, *, ranges: bool = False, degrees: bool = False, shift: bool = False, teams=(2, 8), players=(1, 16),
                  mu=(-20.0, 20.0), sigma=(1e-4, 10.0), sigma_open_lo=False, beta=(1.0, 1.0), tau=(0.0, 10.0), tau_open_lo=False,
                  kappa=(0.0, 1e-2), gamma=(0.0, 1e6)):
-        self.ranges, self.degrees = ranges, degrees
+        self.ranges, self.degrees, self.shift = ranges, degrees, shift
         self.teams, self.players = teams, players
         self.mu, self.sigma, self.beta, self.tau, self.kappa, self.gamma = mu, sigma, beta, tau, kappa, gamma
         self.sigma_open_lo, self.tau_open_lo = sigma_open_lo, tau_open_lo
@@ -140,6 +140,10 @@ class World:
         idx = tuple(ivar(p) for p in params)
         sl = sym_loc or loc
         mu = b.num("mu", sym=("in", sl, "mu", idx), prov=frozenset({"MU"}))
+        if b.shift:
+            from .shift import player_mu_weight
+
+            mu = replace(mu, wt=player_mu_weight())
         sigma = b.num("sigma", sym=("in", sl, "sigma", idx), prov=frozenset({"SIGMA"}))
         name = Str(None, frozenset({"NAME"}))
         tmp = self.I.instantiate(cls, [mu, sigma, name], {}, cls.node, self.state)
